@@ -20,6 +20,7 @@ mod misc;
 mod model;
 mod payload;
 mod rate14;
+mod rxsynth;
 mod util;
 mod wire;
 
@@ -235,6 +236,12 @@ fn run_scenario(family: &str, seed: u64, idx: u64, params: &Params) -> ScnOut {
         }
         "hostile-rx" => {
             hostile::run_batch(scn_seed, params, &mut out, true);
+        }
+        "ack-storm" => {
+            hostile::run_ack_storm_batch(scn_seed, params, &mut out);
+        }
+        "frag-rx" => {
+            rxsynth::run_batch(scn_seed, params, &mut out);
         }
         "sendsync" => {
             misc::run_sendsync(scn_seed, &mut out);
